@@ -112,7 +112,7 @@ CLAIMED = {
              "(find / rfind / count / negative-index slicing / strip / split lemmas, int(str(n)) = n), C01_desc_list_roundtrip, and of mixture specifiers: "
              "C01_mixture_abs_roundtrip / C01_mixture_rel_roundtrip (.|m| and .|p%| read back as m and p for every number whose printed form satisfies the decidable "
              "MixNumOK, signed-exponent forms such as 2.5e-05 included) and of distributions: C01_distribution_roundtrip + C01_uniform_roundtrip (all six families: the printed form reads back as the same family and parameters through the "
-             "substring dispatch, strip, startswith and the model of ast.literal_eval / float of a slice / integer bounds; decidable TokOK on the printed parameters); C02_token_lossless gives the token level its raw-text half; C01_translated_printMix: the printed mixture text is TRANSLATED from Mixture.generate_string on every run and proved equal to the model's printMix. After a generate() call the object "
+             "substring dispatch, strip, startswith and the model of ast.literal_eval / float of a slice / integer bounds; decidable TokOK on the printed parameters); for whole-number parameters / masses / weights below 10^15 the side conditions are discharged (reprFloat_nat computes the repr text): C01_distribution_roundtrip_nat, C01_uniform_roundtrip_nat, C01_mixture_roundtrip_nat, C01_desc_weight_roundtrip_nat are unconditional; C02_token_lossless gives the token level its raw-text half; C01_translated_printMix: the printed mixture text is TRANSLATED from Mixture.generate_string on every run and proved equal to the model's printMix. After a generate() call the object "
              "still prints its canonical string. The fixed-point, same-object, layout-independence, no-bar, reparse and same-seed-same-molecule "
              "clauses are decided on the implementation by the round-trip oracle over all archetypes x 3 layouts, systems and the documented strings.",
         note="Partial: beyond bond descriptors and mixture specifiers (tokens, objects, molecules) the fixed-point / same-object clauses are not theorems on characters "
